@@ -2606,10 +2606,16 @@ impl Node {
 
     /// Adds addresses to the node's current allowlist.
     pub fn add_allowlist(&self, adds: &[String]) -> Result<(), Status> {
+        // parse everything first, so that a refused request changes nothing
+        let allowables = adds
+            .iter()
+            .map(|a| {
+                Allowable::from_str(a, self.node_config.network)
+                    .map_err(|e| invalid_argument(format!("could not parse {}", e)))
+            })
+            .collect::<Result<Vec<_>, Status>>()?;
         let mut state = self.get_state();
-        for a in adds.iter() {
-            let allowable = Allowable::from_str(a, self.node_config.network)
-                .map_err(|e| invalid_argument(format!("could not parse {}", e)))?;
+        for allowable in allowables {
             state.allowlist.insert(allowable);
         }
         self.update_allowlist(&state)?;
@@ -2618,11 +2624,17 @@ impl Node {
 
     /// Replace the node's allowlist with the provided allowlist.
     pub fn set_allowlist(&self, list: &[String]) -> Result<(), Status> {
+        // parse everything first, so that a refused request changes nothing
+        let allowables = list
+            .iter()
+            .map(|a| {
+                Allowable::from_str(a, self.node_config.network)
+                    .map_err(|e| invalid_argument(format!("could not parse {}", e)))
+            })
+            .collect::<Result<Vec<_>, Status>>()?;
         let mut state = self.get_state();
         state.allowlist.clear();
-        for a in list.iter() {
-            let allowable = Allowable::from_str(a, self.node_config.network)
-                .map_err(|e| invalid_argument(format!("could not parse {}", e)))?;
+        for allowable in allowables {
             state.allowlist.insert(allowable);
         }
         self.update_allowlist(&state)?;
@@ -2638,10 +2650,16 @@ impl Node {
 
     /// Removes addresses from the node's current allowlist.
     pub fn remove_allowlist(&self, removes: &[String]) -> Result<(), Status> {
+        // parse everything first, so that a refused request changes nothing
+        let allowables = removes
+            .iter()
+            .map(|r| {
+                Allowable::from_str(r, self.node_config.network)
+                    .map_err(|e| invalid_argument(format!("could not parse {}", e)))
+            })
+            .collect::<Result<Vec<_>, Status>>()?;
         let mut state = self.get_state();
-        for r in removes.iter() {
-            let allowable = Allowable::from_str(r, self.node_config.network)
-                .map_err(|e| invalid_argument(format!("could not parse {}", e)))?;
+        for allowable in allowables {
             state.allowlist.remove(&allowable);
         }
         self.update_allowlist(&state)?;
